@@ -1,4 +1,4 @@
-import LyModel.Valid.FullMain
+import LyModel.Valid.FullUniqMain
 import LyModel.Valid.FullSaneB
 import LyModel.Valid.LemmasPerm
 /-!
@@ -30,56 +30,72 @@ leaves).  This file states them for the FULL schema language of the model of `sr
 namespace LyModel.Props.C02
 open LyModel LyModel.Tree LyModel.Valid
 
-/-- **`validate_ok_iff_valid`, full schema language (without `unique`)**: the instance can be built and `lyd_validate` logs no
+/-- **`validate_ok_iff_valid`, full schema language**: the instance can be built and `lyd_validate` logs no
 error **iff** the instance satisfies the RFC 7950 specification `Valid` — duplicates §7.5–7.8, one case per choice §7.9, keys
 §7.8.2, min/max §7.7.5–6 (also inside cases), mandatory leaf §7.6.5 and mandatory choice §7.9.4 (a case constrains only when it has
 data; seen through non-presence containers), values §9, no state data under no-state.  Unbounded in the schema, the tree and the
 values.  (Hypotheses: header of this file.) -/
-theorem validate_ok_iff_valid_full (X : SchemaX) (o : VOpts) (hop : o.operational = false) (hu : X.uniques = [])
-    (hq : X.q.implicitInnerCase = false) (hl : KidsLookupOk X) (hio : InfoOk X) (hs : FullSane X o) (t : List DNode)
+theorem validate_ok_iff_valid_full (X : SchemaX) (o : VOpts) (hop : o.operational = false) (hq : X.q.implicitInnerCase = false)
+    (hqu : X.q.uniqueDefaultAlways = false) (hl : KidsLookupOk X) (hnl : NodeLookupOk X) (hio : InfoOk X) (hs : FullSane X o)
+    (hup : UniqPathsOk X) (t : List DNode)
     (hg : goodL X X.top t = true) (hlen0 : t.length ≤ uint32Max) (hh : sheightL X.top ≤ walkFuel X t) :
     (buildL X.base t = none ∧ (validate X o t).errs = []) ↔ Valid X o t :=
-  validate_full_iff X o hop (uniqBridge_of_nil X o hu) hq hl hio hs t hg hlen0 hh
+  validate_full_iff X o hop (uniqBridge_of_paths X o hop hq hl hio hs hqu hnl hup) hq hl hio hs t hg hlen0 hh
 
-/-- **`validate_error_tag`, full schema language (without `unique`)**: every error `lyd_validate` logs — the first one, which is the
+/-- **`validate_error_tag`, full schema language**: every error `lyd_validate` logs — the first one, which is the
 verdict without `LYD_VALIDATE_MULTI_ERROR`, and every further one with it — is of a constraint family the instance violates
 according to the specification (`DupCase` only where two cases of a choice have data, `NoMandChoice` / app-tag `missing-choice`
 only where a mandatory choice of an existing parent or of a case with data has none, `NoMand`, `NoMin` / `NoMax`
 (`too-few-elements` / `too-many-elements`), `Dup`, `UnexpState` likewise; `EKind.appTag`). -/
-theorem validate_error_tag_full (X : SchemaX) (o : VOpts) (hop : o.operational = false) (hu : X.uniques = [])
-    (hq : X.q.implicitInnerCase = false) (hl : KidsLookupOk X) (hio : InfoOk X) (hs : FullSane X o) (t : List DNode)
+theorem validate_error_tag_full (X : SchemaX) (o : VOpts) (hop : o.operational = false) (hq : X.q.implicitInnerCase = false)
+    (hqu : X.q.uniqueDefaultAlways = false) (hl : KidsLookupOk X) (hnl : NodeLookupOk X) (hio : InfoOk X) (hs : FullSane X o)
+    (hup : UniqPathsOk X) (t : List DNode)
     (hg : goodL X X.top t = true) (hlen0 : t.length ≤ uint32Max) (hh : sheightL X.top ≤ walkFuel X t) :
     ∀ e ∈ (validate X o t).errs, e.kind ∈ violations X o t :=
-  validate_full_sound X o hop (uniqBridge_of_nil X o hu) hq hl hio hs t hg hlen0 hh
+  validate_full_sound X o hop (uniqBridge_of_paths X o hop hq hl hio hs hqu hnl hup) hq hl hio hs t hg hlen0 hh
 
-/-- the hypotheses of the two theorems, for the witness schema `Xfull` (LyModel/Valid/FullSaneB.lean:
+/-- the witness schema `Xfull` (LyModel/Valid/FullSaneB.lean:
 `container c { presence; list l { key k; leaf k; container n { choice ch { default d; case d { leaf u { default "9"; } leaf-list dl
 { default "a"; default "b"; } } case e { leaf v { mandatory true; } choice in { mandatory true; case i1 { leaf w; } case i2 {
-leaf-list x { min-elements 1; max-elements 2; } } } } } } leaf m { mandatory true; } } leaf s { config false; } }`) -/
-theorem full_hyps (o : VOpts) (hs : fullSaneB Xfull o = true) (t : List DNode)
-    (h : (goodL Xfull Xfull.top t && decide (t.length ≤ uint32Max) && decide (sheightL Xfull.top ≤ walkFuel Xfull t)) = true) :
-    Xfull.uniques = [] ∧ Xfull.q.implicitInnerCase = false ∧ KidsLookupOk Xfull ∧ InfoOk Xfull ∧ FullSane Xfull o ∧
-      goodL Xfull Xfull.top t = true ∧ t.length ≤ uint32Max ∧ sheightL Xfull.top ≤ walkFuel Xfull t := by
+leaf-list x { min-elements 1; max-elements 2; } } } } } } leaf m { mandatory true; } } leaf s { config false; } }`) with two `unique`
+statements on the list: `unique "n/u m"` (`u`: a leaf with a default in the default case of the choice inside the non-presence
+container) and `unique "n/w"` (`w`: reached through the nested choice) -/
+def XfullU : SchemaX := { Xfull with uniques := [(1, [6, 15]), (1, [12])] }
+
+/-- two list entries `l[k=1] { m = m }`, `l[k=2] { m = <mv> }`, no `n`: the default case `d` is in use in both, so `u = 9` in both -/
+def tUniq (mv : UInt8) : List DNode :=
+  [.inner 0 flN [] [.inner 1 flN [] [.term 2 flN [] [49], .term 15 flN [] [109]], .inner 1 flN [] [.term 2 flN [] [50], .term 15 flN [] [mv]]]]
+
+/-- the hypotheses of the theorems for the witness schema -/
+theorem full_hyps (o : VOpts) (hs : fullSaneB XfullU o = true) (t : List DNode)
+    (h : (goodL XfullU XfullU.top t && decide (t.length ≤ uint32Max) && decide (sheightL XfullU.top ≤ walkFuel XfullU t)) = true) :
+    XfullU.q.implicitInnerCase = false ∧ XfullU.q.uniqueDefaultAlways = false ∧ KidsLookupOk XfullU ∧ NodeLookupOk XfullU ∧
+      InfoOk XfullU ∧ FullSane XfullU o ∧ UniqPathsOk XfullU ∧
+      goodL XfullU XfullU.top t = true ∧ t.length ≤ uint32Max ∧ sheightL XfullU.top ≤ walkFuel XfullU t := by
   simp only [Bool.and_eq_true, decide_eq_true_eq] at h
-  exact ⟨rfl, rfl, lookupOk_of_B _ (by decide), infoOk_of_B _ (by decide), fullSane_of_B _ _ hs, h.1.1, h.1.2, h.2⟩
+  exact ⟨rfl, rfl, lookupOk_of_B _ (by decide), nodeLookupOk_of_B _ (by decide), infoOk_of_B _ (by decide), fullSane_of_B _ _ hs,
+    uniqPathsOk_of_B _ (by decide), h.1.1, h.1.2, h.2⟩
 
 /-- non-vacuity: the theorems instantiated on the witness schema — a list entry inside a presence container holding a non-presence
 container with a choice (default case with leaf and leaf-list defaults; the other case with a mandatory leaf and a nested mandatory
 choice whose second case holds a leaf-list with min / max) and a mandatory leaf.  `tFullOk` (case `e` with `v`, `x = a`; `m`) is
 valid and accepted; `tFullBad1` (no `x`: the nested mandatory choice has no data; no `m`) and `tFullBad2` (`u` of case `d` next to
 `v`: two cases; three `x`) are refused by both sides, the errors the model logs are of families the specification lists; under
-`LYD_VALIDATE_NO_STATE` too -/
-example : (buildL Xfull.base tFullOk = none ∧ (validate Xfull {} tFullOk).errs = []) ∧ Valid Xfull {} tFullOk ∧
-    ¬ Valid Xfull {} tFullBad1 ∧ ¬ Valid Xfull {} tFullBad2 ∧ Valid Xfull { noState := true } tFullOk ∧
-    violations Xfull {} tFullBad1 = [.noMandChoice, .noMand] ∧ violations Xfull {} tFullBad2 = [.dupCase, .noMax] ∧
-    ((validate Xfull {} tFullBad1).errs.map (·.kind)) = [.noMand, .noMandChoice] ∧
-    ((validate Xfull {} tFullBad2).errs.map (·.kind)) = [.dupCase] ∧
-    (∀ e ∈ (validate Xfull {} tFullBad1).errs, e.kind ∈ violations Xfull {} tFullBad1) :=
-  have H : ∀ (o : VOpts) (t : List DNode), o.operational = false → fullSaneB Xfull o = true →
-      (goodL Xfull Xfull.top t && decide (t.length ≤ uint32Max) && decide (sheightL Xfull.top ≤ walkFuel Xfull t)) = true →
-      ((buildL Xfull.base t = none ∧ (validate Xfull o t).errs = []) ↔ Valid Xfull o t) := fun o t hop hs h => by
-    obtain ⟨h1, h2, h3, h4, h5, h6, h7, h8⟩ := full_hyps o hs t h
-    exact validate_ok_iff_valid_full Xfull o hop h1 h2 h3 h4 h5 t h6 h7 h8
+`LYD_VALIDATE_NO_STATE` too; two entries that agree on `m` and on the default of `u` violate `unique "n/u m"` (`tUniq 109`), with
+different `m` they do not (`tUniq 110`) -/
+example : (buildL XfullU.base tFullOk = none ∧ (validate XfullU {} tFullOk).errs = []) ∧ Valid XfullU {} tFullOk ∧
+    ¬ Valid XfullU {} tFullBad1 ∧ ¬ Valid XfullU {} tFullBad2 ∧ Valid XfullU { noState := true } tFullOk ∧
+    violations XfullU {} tFullBad1 = [.noMandChoice, .noMand] ∧ violations XfullU {} tFullBad2 = [.dupCase, .noMax] ∧
+    ((validate XfullU {} tFullBad1).errs.map (·.kind)) = [.noMand, .noMandChoice] ∧
+    ((validate XfullU {} tFullBad2).errs.map (·.kind)) = [.dupCase] ∧
+    (∀ e ∈ (validate XfullU {} tFullBad1).errs, e.kind ∈ violations XfullU {} tFullBad1) ∧
+    violations XfullU {} (tUniq 109) = [.noUniq] ∧ ((validate XfullU {} (tUniq 109)).errs.map (·.kind)) = [.noUniq] ∧
+    (buildL XfullU.base (tUniq 110) = none ∧ (validate XfullU {} (tUniq 110)).errs = []) :=
+  have H : ∀ (o : VOpts) (t : List DNode), o.operational = false → fullSaneB XfullU o = true →
+      (goodL XfullU XfullU.top t && decide (t.length ≤ uint32Max) && decide (sheightL XfullU.top ≤ walkFuel XfullU t)) = true →
+      ((buildL XfullU.base t = none ∧ (validate XfullU o t).errs = []) ↔ Valid XfullU o t) := fun o t hop hs h => by
+    obtain ⟨h1, h2, h3, h4, h5, h6, h7, h8, h9, h10⟩ := full_hyps o hs t h
+    exact validate_ok_iff_valid_full XfullU o hop h1 h2 h3 h4 h5 h6 h7 t h8 h9 h10
   ⟨(H {} tFullOk rfl (by decide) (by decide)).2 (by decide),
    (H {} tFullOk rfl (by decide) (by decide)).1 (by decide),
    fun h => absurd ((H {} tFullBad1 rfl (by decide) (by decide)).2 h).2 (by decide),
@@ -87,8 +103,10 @@ example : (buildL Xfull.base tFullOk = none ∧ (validate Xfull {} tFullOk).errs
    (H { noState := true } tFullOk rfl (by decide) (by decide)).1 (by decide),
    by decide, by decide, by decide, by decide,
    by
-    obtain ⟨h1, h2, h3, h4, h5, h6, h7, h8⟩ := full_hyps {} (by decide) tFullBad1 (by decide)
-    exact validate_error_tag_full Xfull {} rfl h1 h2 h3 h4 h5 tFullBad1 h6 h7 h8⟩
+    obtain ⟨h1, h2, h3, h4, h5, h6, h7, h8, h9, h10⟩ := full_hyps {} (by decide) tFullBad1 (by decide)
+    exact validate_error_tag_full XfullU {} rfl h1 h2 h3 h4 h5 h6 h7 tFullBad1 h8 h9 h10,
+   by decide, by decide,
+   (H {} (tUniq 110) rfl (by decide) (by decide)).2 (by decide)⟩
 
 /-! ## the verdict does not depend on the order of the siblings -/
 
@@ -96,19 +114,21 @@ example : (buildL Xfull.base tFullOk = none ∧ (validate Xfull {} tFullOk).errs
 (`TreePerm`: generated by swapping adjacent siblings that are not list keys — libyang keeps the keys of a list entry first, in
 schema order —, at the top level or among the children of any node), both as the builders / parsers leave them: libyang's verdict
 — the instance can be built and `lyd_validate` logs no error — is the same.  Proof: `validate_ok_iff_valid_full` on both sides,
-and the specification `Valid` is invariant under `TreePerm` (`valid_perm_noUnique_keysFirst`, LyModel/Valid/LemmasPerm.lean: every
+and the specification `Valid` is invariant under `TreePerm` (`valid_perm_keysFirst`, LyModel/Valid/LemmasPerm.lean: every
 constraint family of the specification is permutation invariant — instance counts, pairwise-different keys / values, cases with
-data, the recursion into the instances —; `KeysFirst`: the key leaves of a list are its first schema children, decidable
+data, the recursion into the instances, and the `unique` tuples, whose `find?` by schema id is order independent inside a valid
+entry (`UniqueWF`: every leaf a `unique` statement names is a leaf and the choices on the way have only cases as children) —; `KeysFirst`: the key leaves of a list are its first schema children, decidable
 `keysFirstB`). -/
-theorem verdict_order_independent (X : SchemaX) (o : VOpts) (hop : o.operational = false) (hu : X.uniques = [])
-    (hq : X.q.implicitInnerCase = false) (hl : KidsLookupOk X) (hio : InfoOk X) (hs : FullSane X o) (hk : KeysFirst X.base)
+theorem verdict_order_independent (X : SchemaX) (o : VOpts) (hop : o.operational = false) (hq : X.q.implicitInnerCase = false)
+    (hqu : X.q.uniqueDefaultAlways = false) (hl : KidsLookupOk X) (hnl : NodeLookupOk X) (hio : InfoOk X) (hs : FullSane X o)
+    (hup : UniqPathsOk X) (hw : UniqueWF X) (hk : KeysFirst X.base)
     (t t' : List DNode) (hp : TreePerm X.base t t')
     (hg : goodL X X.top t = true) (hlen0 : t.length ≤ uint32Max) (hh : sheightL X.top ≤ walkFuel X t)
     (hg' : goodL X X.top t' = true) (hlen0' : t'.length ≤ uint32Max) (hh' : sheightL X.top ≤ walkFuel X t') :
     (buildL X.base t = none ∧ (validate X o t).errs = []) ↔ (buildL X.base t' = none ∧ (validate X o t').errs = []) := by
-  rw [validate_ok_iff_valid_full X o hop hu hq hl hio hs t hg hlen0 hh,
-    validate_ok_iff_valid_full X o hop hu hq hl hio hs t' hg' hlen0' hh']
-  exact valid_perm_noUnique_keysFirst X o hu hk hp
+  rw [validate_ok_iff_valid_full X o hop hq hqu hl hnl hio hs hup t hg hlen0 hh,
+    validate_ok_iff_valid_full X o hop hq hqu hl hnl hio hs hup t' hg' hlen0' hh']
+  exact valid_perm_keysFirst X o hw hk hp
 
 /-- `tFullOk` with the mandatory leaf `m` in front of the container `n`, and `x` in front of `v` inside it -/
 def tFullOkPerm : List DNode :=
@@ -120,27 +140,27 @@ def tFullBad2Perm : List DNode :=
 
 /-- non-vacuity: the permuted valid tree is accepted, the permuted invalid one refused, by the theorem from the verdicts on the
 originals (the hypotheses hold: `KeysFirst`, `TreePerm` by the swaps spelled out) -/
-example : KeysFirst Xfull.base ∧ TreePerm Xfull.base tFullOk tFullOkPerm ∧
-    (buildL Xfull.base tFullOkPerm = none ∧ (validate Xfull {} tFullOkPerm).errs = []) ∧
-    ¬ (buildL Xfull.base tFullBad2Perm = none ∧ (validate Xfull {} tFullBad2Perm).errs = []) := by
-  have hk : KeysFirst Xfull.base := keysFirst_of_keysFirstB _ (by decide)
-  have hp1 : TreePerm Xfull.base tFullOk tFullOkPerm := by
+example : KeysFirst XfullU.base ∧ TreePerm XfullU.base tFullOk tFullOkPerm ∧
+    (buildL XfullU.base tFullOkPerm = none ∧ (validate XfullU {} tFullOkPerm).errs = []) ∧
+    ¬ (buildL XfullU.base tFullBad2Perm = none ∧ (validate XfullU {} tFullBad2Perm).errs = []) := by
+  have hk : KeysFirst XfullU.base := keysFirst_of_keysFirstB _ (by decide)
+  have hp1 : TreePerm XfullU.base tFullOk tFullOkPerm := by
     unfold tFullOk tFullOkPerm fullEntry
     refine .kids _ _ _ _ (.kids _ _ _ _ (.cons _ ?_))
     refine .trans (b := [.inner 3 flN [] [.term 14 flN [] [97], .term 9 flN [] [118]], .term 15 flN [] [109]]) ?_ ?_
     · exact .kids _ _ _ _ (.swap _ _ _ (by decide) (by decide))
     · exact .swap _ _ _ (by decide) (by decide)
-  have hp2 : TreePerm Xfull.base tFullBad2 tFullBad2Perm := by
+  have hp2 : TreePerm XfullU.base tFullBad2 tFullBad2Perm := by
     unfold tFullBad2 tFullBad2Perm fullEntry
     exact .kids _ _ _ _ (.kids _ _ _ _ (.cons _ (.kids _ _ _ _ (.swap _ _ _ (by decide) (by decide)))))
-  have V : ∀ (t t' : List DNode), TreePerm Xfull.base t t' →
-      (goodL Xfull Xfull.top t && decide (t.length ≤ uint32Max) && decide (sheightL Xfull.top ≤ walkFuel Xfull t)) = true →
-      (goodL Xfull Xfull.top t' && decide (t'.length ≤ uint32Max) && decide (sheightL Xfull.top ≤ walkFuel Xfull t')) = true →
-      ((buildL Xfull.base t = none ∧ (validate Xfull {} t).errs = []) ↔ (buildL Xfull.base t' = none ∧ (validate Xfull {} t').errs = [])) :=
+  have V : ∀ (t t' : List DNode), TreePerm XfullU.base t t' →
+      (goodL XfullU XfullU.top t && decide (t.length ≤ uint32Max) && decide (sheightL XfullU.top ≤ walkFuel XfullU t)) = true →
+      (goodL XfullU XfullU.top t' && decide (t'.length ≤ uint32Max) && decide (sheightL XfullU.top ≤ walkFuel XfullU t')) = true →
+      ((buildL XfullU.base t = none ∧ (validate XfullU {} t).errs = []) ↔ (buildL XfullU.base t' = none ∧ (validate XfullU {} t').errs = [])) :=
     fun t t' hp h h' => by
-      obtain ⟨h1, h2, h3, h4, h5, h6, h7, h8⟩ := full_hyps {} (by decide) t h
-      obtain ⟨_, _, _, _, _, h6', h7', h8'⟩ := full_hyps {} (by decide) t' h'
-      exact verdict_order_independent Xfull {} rfl h1 h2 h3 h4 h5 hk t t' hp h6 h7 h8 h6' h7' h8'
+      obtain ⟨h1, h2, h3, h4, h5, h6, h7, h8, h9, h10⟩ := full_hyps {} (by decide) t h
+      obtain ⟨_, _, _, _, _, _, _, h8', h9', h10'⟩ := full_hyps {} (by decide) t' h'
+      exact verdict_order_independent XfullU {} rfl h1 h2 h3 h4 h5 h6 h7 (by decide) hk t t' hp h8 h9 h10 h8' h9' h10'
   exact ⟨hk, hp1, (V _ _ hp1 (by decide) (by decide)).1 (by decide),
     fun h => absurd ((V _ _ hp2 (by decide) (by decide)).2 h).2 (by decide)⟩
 
